@@ -45,8 +45,10 @@ pub fn registry() -> Vec<(&'static str, &'static str, MonFn)> {
         ("c05_bg", "C05", c05::background_gc as MonFn),
         ("c05_probe", "C05", c05::probe as MonFn),
         ("c06_diff", "C06", c06::differential as MonFn),
+        ("c06_subst_ids", "C06", c06::subst_ids as MonFn),
         ("c14_sweep", "C14", c14::sweep as MonFn),
         ("c14_aborts", "C14", c14::aborts as MonFn),
+        ("c14_import", "C14", c14::import as MonFn),
         ("c11_exh", "C11", c11::exhaustive as MonFn),
         ("c11_rand", "C11", c11::random as MonFn),
         ("c07_sched_rand", "C07", c07::sched_random as MonFn),
